@@ -6,7 +6,7 @@ let xh = hex_of_bytes
 let split c s = if s = "-" || s = "" then [] else String.split_on_char c s
 let string_of_ferr = function
   | ErrShort -> "short" | ErrMagic -> "magic" | ErrNotModelled -> "not_modelled" | ErrVolInfo -> "volinfo"
-  | ErrNoCtab -> "noctab" | ErrVersion -> "version" | ErrIndex -> "index" | ErrValue -> "value" | ErrHeader -> "header"
+  | ErrNoCtab -> "noctab" | ErrVersion -> "version" | ErrIndex -> "index" | ErrValue -> "value" | ErrHeader -> "header" | ErrAlias -> "alias"
 (* vinfo: "<head> <validhex> <filenamehex> <x..,x..,x../x..,..>" *)
 let vinfo_of head valid fname nums =
   { vhead = zl head; vvalid = hx valid; vfilename = hx fname;
@@ -54,6 +54,17 @@ let handle op args = match op, args with
      | Ok (m, d) -> "ok ints=" ^ sl m.hints ^ " good=" ^ string_of_z m.hgood ^ " floats=" ^ sl m.hfloats ^
                     " footer=" ^ sl m.hfooter ^ " shape=" ^ sl (get_data_shape (mdims m)) ^
                     " zooms=" ^ sl (get_zooms m) ^ " data=" ^ xh d
+     | Err e -> "err " ^ string_of_ferr e)
+  | "hsave", [mapped; copies; ints; good; floats; footer; data] ->
+    (* file 1 holds an MGH file with these fields; the buffer is a map of its data region (mapped=1)
+       or an in-memory copy; save onto file 1 *)
+    let m = { hints = zl ints; hgood = z_of_string good; hfloats = zl floats; hfooter = zl footer } in
+    let d = hx data in
+    let one = z_of_int 1 in
+    let fs = [ (one, mgh_write m d) ] in
+    let buf = if bool_of_string mapped then Mapped (one, z_of_int 284, z_of_int (List.length d)) else Own d in
+    (match mgh_save fs one m buf (bool_of_string copies) with
+     | Ok fs2 -> (match fs_get fs2 one with Some f -> "ok " ^ xh f | None -> "err nofile")
      | Err e -> "err " ^ string_of_ferr e)
   | "shape", [s] ->
     (match set_data_shape (zl s) with
